@@ -14,6 +14,7 @@ import (
 	"io"
 	gofs "io/fs"
 	"os"
+	"os/exec"
 	"path/filepath"
 	"runtime"
 	"sort"
@@ -31,6 +32,7 @@ import (
 func init() {
 	kinds[0x0401] = run0401
 	kinds[0x0801] = run0801
+	kinds[0x0802] = run0802
 	props["C04"] = genC04
 	props["C08"] = genC08
 }
@@ -397,6 +399,8 @@ type c04Cfg struct {
 	// Hold: the fault is held back until quiescence: a fault hook blocks where it would fail, a
 	// cancellation / endpoint failure is postponed; at the first quiescence it is released.
 	Hold bool
+	// SumGate: which files' digest computation (hash.Sum) is gated until their notification
+	SumGate func(path string) bool
 	// SrcDir != "": the source is that directory through fsutil.NewFS instead of the in-memory FS
 	SrcDir string
 	// Stall >= 0 (with Hold): the receiver-side callbacks of that entry block until the same moment
@@ -411,6 +415,7 @@ type c04Res struct {
 	TimedOut         bool
 	Quiesced         bool
 	HeldReleased     bool
+	SumReleased      int
 	Fired            bool
 	Leaks            int
 	Log              []c04Pkt
@@ -604,6 +609,10 @@ func c04Run(cfg c04Cfg) (res c04Res) {
 		mem.ReadHook = func(p string, off int) error { cfg.Perturb(); return nil }
 	}
 	var nmu sync.Mutex
+	var gmu sync.Mutex // guards the Sum gates
+	notified := map[string]chan struct{}{}
+	sumRelease := make(chan struct{})
+	sumWaiters := 0
 	opt := fsutil.ReceiveOpt{
 		ContentHasher: func(st *types.Stat) (hash.Hash, error) {
 			if cfg.Perturb != nil {
@@ -617,8 +626,31 @@ func c04Run(cfg c04Cfg) (res c04Res) {
 			if stallPath != "" && st.Path == stallPath {
 				waitHold()
 			}
-			h := &recHash{}
+			h := &c08Hash{}
 			h.Write(hdrFor(st))
+			if cfg.SumGate != nil && os.FileMode(st.Mode)&os.ModeType == 0 && cfg.SumGate(st.Path) {
+				// gate this file's digest computation (hash.Sum, called when its writer is closed):
+				// it blocks until the change notification for the file has been delivered — which
+				// a correct receiver does only afterwards — or, failing that, until everything is parked
+				gmu.Lock()
+				ch := make(chan struct{})
+				notified[st.Path] = ch
+				gmu.Unlock()
+				h.gate = func() {
+					gmu.Lock()
+					sumWaiters++
+					rel := sumRelease
+					gmu.Unlock()
+					select {
+					case <-ch:
+					case <-rel:
+					case <-pair.down:
+					}
+					gmu.Lock()
+					sumWaiters--
+					gmu.Unlock()
+				}
+			}
 			return h, nil
 		},
 		NotifyHashed: func(kind fsutil.ChangeKind, p string, fi os.FileInfo, err error) error {
@@ -633,6 +665,12 @@ func c04Run(cfg c04Cfg) (res c04Res) {
 			if stallPath != "" && p == stallPath {
 				waitHold()
 			}
+			gmu.Lock()
+			if ch, ok := notified[p]; ok {
+				delete(notified, p)
+				close(ch)
+			}
+			gmu.Unlock()
 			n := c04Notif{Kind: int(kind), Path: p}
 			if fi != nil {
 				if st, ok := fi.Sys().(*types.Stat); ok {
@@ -735,6 +773,17 @@ loop:
 			lastAct = act
 			if quietRuns >= 3 {
 				// quiescence: every goroutine of both calls is parked and nothing moved
+				gmu.Lock()
+				if sumWaiters > 0 {
+					// a gated digest computation is what everybody waits for: let it go on
+					close(sumRelease)
+					sumRelease = make(chan struct{})
+					gmu.Unlock()
+					res.SumReleased++
+					quietRuns, lastAct = 0, -1
+					continue
+				}
+				gmu.Unlock()
 				if cfg.Hold && !released {
 					// release what was held back: the postponed event first, then the blocked hooks
 					released = true
@@ -1226,6 +1275,21 @@ func genC04(g *Gen) {
 
 // ---------------------------------------------------------------- C08: forced schedules
 
+// c08Hash is the identity hash of e2e.go (Sum returns everything written) with a gate in Sum.
+type c08Hash struct {
+	recHash
+	gate func()
+}
+
+func (h *c08Hash) Sum(b []byte) []byte {
+	if h.gate != nil {
+		g := h.gate
+		h.gate = nil
+		g()
+	}
+	return h.recHash.Sum(b)
+}
+
 type c08Rng struct {
 	mu sync.Mutex
 	r  *Rng
@@ -1311,7 +1375,22 @@ func run0801(in Sx) (out Sx) {
 		if err := Materialize(prior, dest); err != nil {
 			panic("materialize prior: " + err.Error())
 		}
-		res := c04Run(c04Cfg{View: view, Dest: dest, Cap: capacity, Chunk: chunk, Scribble: true, Perturb: perturb, Stall: -1})
+		var sumGate func(string) bool
+		if s%2 == 1 {
+			// gate the digest computation of up to three files until their notification
+			gated := 0
+			var sgmu sync.Mutex
+			sumGate = func(string) bool {
+				sgmu.Lock()
+				defer sgmu.Unlock()
+				if gated < 3 && rr.intn(8) == 0 {
+					gated++
+					return true
+				}
+				return false
+			}
+		}
+		res := c04Run(c04Cfg{View: view, Dest: dest, Cap: capacity, Chunk: chunk, Scribble: true, Perturb: perturb, Stall: -1, SumGate: sumGate})
 		eq := !res.Hung && len(c04DestDiff(view, dest)) == 0
 		dg := ""
 		if !res.Hung {
@@ -1340,9 +1419,114 @@ func run0801(in Sx) (out Sx) {
 	return L(recs...)
 }
 
+// kind 0802 (supporting test OUTSIDE the model: data races are not modelled).  input: (ncases seed)
+// Builds this harness with `go build -race` against the same fsutil tree and runs the C08
+// generator (ncases cases, all their schedules) in that binary; counts the race detector's reports.
+// output: (built races cases child_ok info)
+func run0802(in Sx) (out Sx) {
+	defer func() {
+		if r := recover(); r != nil {
+			out = L(N(0), N(0), N(0), N(0), S(fmt.Sprint(r)))
+		}
+	}()
+	ncases := in.L[0].Int()
+	seed := in.L[1].U64()
+	exe, err := os.Executable()
+	if err != nil {
+		return L(N(0), N(0), N(0), N(0), S("no executable path"))
+	}
+	hdir := filepath.Dir(exe)
+	work := WorkDir("c08race-")
+	defer os.RemoveAll(work)
+	repo := os.Getenv("VERIF_REPO")
+	if repo == "" {
+		repo = "/repo"
+	}
+	if rp, err := filepath.EvalSymlinks(repo); err == nil {
+		repo = rp
+	}
+	mod, err := os.ReadFile(filepath.Join(hdir, "go.mod"))
+	if err != nil {
+		return L(N(0), N(0), N(0), N(0), S("no go.mod next to the harness binary"))
+	}
+	modfile := filepath.Join(work, "race.mod")
+	os.WriteFile(modfile, []byte(strings.Replace(string(mod), "=> /repo", "=> "+repo, 1)), 0644)
+	if sum, err := os.ReadFile(filepath.Join(repo, "go.sum")); err == nil {
+		os.WriteFile(filepath.Join(work, "race.sum"), sum, 0644)
+	}
+	env := append(os.Environ(), "CGO_ENABLED=1", "GOFLAGS=-mod=mod", "GOPROXY=off", "GOSUMDB=off", "GOTOOLCHAIN=local")
+	bin := filepath.Join(work, "vh_race")
+	bctx, bcancel := context.WithTimeout(context.Background(), 10*time.Minute)
+	defer bcancel()
+	build := exec.CommandContext(bctx, "go", "build", "-race", "-tags", "verif", "-modfile="+modfile, "-o", bin, ".")
+	build.Dir = hdir
+	build.Env = env
+	if b, err := build.CombinedOutput(); err != nil {
+		msg := string(b)
+		if len(msg) > 300 {
+			msg = msg[len(msg)-300:]
+		}
+		return L(N(0), N(0), N(0), N(0), S("race build failed: "+msg))
+	}
+	rctx, rcancel := context.WithTimeout(context.Background(), 20*time.Minute)
+	defer rcancel()
+	tsv := filepath.Join(work, "r.tsv")
+	run := exec.CommandContext(rctx, bin, "gen", "C08", "--seed", fmt.Sprint(seed), "--tier", "quick", "--out", tsv, "--stats", filepath.Join(work, "r.json"))
+	run.Env = append(env, "C08_CHILD=1", fmt.Sprintf("C08_CASES=%d", ncases), "VERIF_WORK="+work, "GORACE=halt_on_error=0 exitcode=0")
+	var stderr bytes.Buffer
+	run.Stderr = &stderr
+	rerr := run.Run()
+	rep := stderr.String()
+	races := strings.Count(rep, "WARNING: DATA RACE")
+	cases := 0
+	if data, err := os.ReadFile(tsv); err == nil {
+		cases = strings.Count(string(data), "\n")
+	}
+	info := ""
+	if races > 0 {
+		// the functions of the first report (top frame of each of the two accesses)
+		var fns []string
+		lines := strings.Split(rep, "\n")
+		for i, ln := range lines {
+			if (strings.HasPrefix(ln, "Write at") || strings.HasPrefix(ln, "Read at") || strings.HasPrefix(ln, "Previous ")) && i+1 < len(lines) {
+				fns = append(fns, strings.TrimSpace(lines[i+1]))
+			}
+			if len(fns) >= 2 {
+				break
+			}
+		}
+		info = strings.Join(fns, " | ")
+	} else if rerr != nil {
+		info = "child: " + rerr.Error()
+		if len(rep) > 200 {
+			info += ": " + rep[len(rep)-200:]
+		} else {
+			info += ": " + rep
+		}
+	}
+	return L(N(1), NI(races), NI(cases), Bool(rerr == nil), S(info))
+}
+
 func genC08(g *Gen) {
 	r := g.Rng.Fork()
 	n := g.Vol(120, 600)
+	child := os.Getenv("C08_CHILD") != ""
+	if v := os.Getenv("C08_CASES"); v != "" {
+		fmt.Sscan(v, &n)
+	}
+	if !child {
+		// supporting test outside the model: the same generator under the race detector (first, in
+		// its own process: a fatal "concurrent map writes" there is an output value, not a crash here)
+		in := L(NI(g.Vol(40, 600)), N(r.U64()%1000000))
+		out := run0802(in)
+		built := len(out.L) > 2 && out.L[0].IsTrue() && out.L[2].Int() > 0
+		if !built {
+			g.Note("race_detector_run", "NOT RUN: "+out.String())
+		} else {
+			g.Note("race_detector_run", fmt.Sprintf("%d cases under go build -race, %d reports", out.L[2].Int(), out.L[1].Int()))
+		}
+		g.EmitWith(0x0802, in, out, built, "race-detector-run(supporting, outside the model)")
+	}
 	nsched := g.Vol(8, 32)
 	for i := 0; i < n; i++ {
 		var view, prior []*MNode
